@@ -142,6 +142,7 @@ func readConfig(g *GlobalVarsMain, argValues map[string]string, hp *HFilePath) C
 		}
 	}
 	g.PotMineralisationMethod = hconfig.PotMineralisation
+	verifConfigRead(g, &hconfig, argValues)
 
 	return hconfig
 }
